@@ -365,3 +365,112 @@ def _ss_fields(t):
         time.struct_time: ('tm_year', 'tm_mon', 'tm_mday', 'tm_hour', 'tm_min', 'tm_sec',
                            'tm_wday', 'tm_yday', 'tm_isdst'),
     }.get(t) or tuple(n for n in t.__dict__ if not n.startswith('_') and not n.startswith('n_'))[: t.n_sequence_fields]
+
+
+# ---------------------------------------------------------------------------------------------
+# reference unflatten / flatten_up_to (documented semantics, on real objects)
+
+
+def ref_unflatten(d, leaves):
+    """Build the tree described by descriptor `d` from an iterator of leaves."""
+    it = iter(leaves)
+
+    def rec(x):  # noqa: C901, PLR0911
+        if x is STAR:
+            return next(it)
+        ch = [rec(c) for c in x.children]
+        k = x.kind
+        if k == 'none':
+            return None
+        if k == 'tuple':
+            return tuple(ch)
+        if k == 'list':
+            return list(ch)
+        if k == 'deque':
+            return deque(ch, maxlen=x.meta)
+        if k == 'namedtuple':
+            return x.type(*ch)
+        if k == 'structseq':
+            return x.type(ch)
+        if k in DICT_KINDS:
+            keys = x.keys()
+            vals = dict(zip(keys, ch))
+            order = x.orig_keys if x.orig_keys is not None else keys
+            out = {key: vals[key] for key in order}
+            if k == 'odict':
+                return OrderedDict(out)
+            if k == 'ddict':
+                return defaultdict(x.meta[0], out)
+            return out
+        if k == 'custom':
+            return x.reg.unflatten(x.meta, ch)
+        raise AssertionError(k)
+
+    out = rec(d)
+    return out
+
+
+class Mismatch(ValueError):
+    pass
+
+
+def ref_flatten_up_to(d, full, U, namespace):  # noqa: C901
+    """Subtrees of `full` at the leaf positions of descriptor `d` (in d's leaf order); raises
+    Mismatch when `d` is not a prefix of `full`'s structure (exact-type matching, dict kinds with
+    equal key sets interchangeable, deque maxlen ignored)."""
+    out = []
+
+    def rec(x, o):  # noqa: C901, PLR0912
+        if x is STAR:
+            out.append(o)
+            return
+        k = x.kind
+        t = type(o)
+        if k == 'none':
+            if o is not None:
+                raise Mismatch('expected None')
+            return
+        if k == 'tuple':
+            if t is not tuple or len(o) != x.arity:
+                raise Mismatch('tuple')
+            kids = list(o)
+        elif k == 'list':
+            if t is not list or len(o) != x.arity:
+                raise Mismatch('list')
+            kids = list(o)
+        elif k == 'deque':
+            if t is not deque or len(o) != x.arity:
+                raise Mismatch('deque')
+            kids = list(o)
+        elif k in DICT_KINDS:
+            if t not in (dict, OrderedDict, defaultdict):
+                raise Mismatch('dict kind')
+            keys = x.keys()
+            if len(o) != len(keys) or any(key not in o for key in keys):
+                raise Mismatch('keys')
+            kids = [o[key] for key in keys]
+        elif k in ('namedtuple', 'structseq'):
+            if k == 'namedtuple' and t not in U.nt_types:
+                raise Mismatch('not a namedtuple')
+            if k == 'structseq' and t not in U.ss_types:
+                raise Mismatch('not a structseq')
+            if len(o) != x.arity or t is not x.type:
+                raise Mismatch('namedtuple/structseq class or arity')
+            kids = list(o)
+        elif k == 'custom':
+            r = U.lookup(t, namespace)
+            if r is not x.reg:
+                raise Mismatch('custom registration')
+            res = r.flatten(o)
+            if not (res[1] == x.meta):
+                raise Mismatch('custom metadata')
+            kids = list(res[0])
+            if len(kids) != x.arity:
+                raise Mismatch('custom arity')
+        else:
+            raise AssertionError(k)
+        for c, ko in zip(x.children, kids):
+            rec(c, ko)
+
+    rec(d, full)
+    return out
